@@ -38,7 +38,7 @@ ASSUMPTIONS = [
 
 
 def population(tier, seed):
-    n = {"quick": (200, 40, 40), "thorough": (1500, 300, 300)}[tier]
+    n = {"quick": (200, 40, 40), "thorough": (1000, 200, 200)}[tier]
     progs = minic_gen.generate(seed * 1000 + 31, PLAT, "c03", n[0], "v0_")
     progs += minic_gen.generate(seed * 1000 + 32, PLAT, "cond", n[1], "v1_")
     progs += minic_gen.generate(seed * 1000 + 33, PLAT, "mix", n[2], "v2_")
